@@ -783,6 +783,8 @@ class _Sim(object):
         if text == "BAD":
             self.fire("converter_raises")
             raise ValueError("cannot convert %r" % text)
+        if type_name == "Num":
+            return int(text)
         return text.lower()
 
     def module_loaded(self, mid):
@@ -895,7 +897,9 @@ def render_step_module(world, mod, mi):
              "SIM.module_loaded(%r)" % mod["id"], ""]
     lines += ["def _conv_color(text):", "    return SIM.convert('Color', text)",
               "_conv_color.pattern = r'[A-Z]+'",
-              "register_type(Color=_conv_color)", ""]
+              "def _conv_num(text):", "    return SIM.convert('Num', text)",
+              "_conv_num.pattern = r'\\d+'",
+              "register_type(Color=_conv_color, Num=_conv_num)", ""]
     cur = None
     for d in lib["defs"]:
         if d["module"] != mi:
